@@ -251,6 +251,7 @@ func runC10(c *Check) {
 
 	c.optionStore()
 	c.perRequestState("C10-R4")
+	c.sharedTablesReadOnly()
 }
 
 func isNewCopy(v ssa.Value) bool {
